@@ -100,6 +100,7 @@ Proof.
   - unfold struct_param. cbn [enc_param]. unfold is_required. cbn [pkind_of]. rewrite Hl. cbn [negb orb guard bind].
     unfold vget. rewrite Hl. cbn [is_none negb guard bind opt_or0].
     cbn [enc_dop]. cbn [enc_composite].
+    no_own_keys ltac:(intros p Hp; rewrite Hps in Hp; apply in_map_iff in Hp as (x & <- & Hx); apply (proj2 (Hms x Hx))).
     destruct Hend as (Hb & _). cbn [set_bit e_bit Z.eqb guard bind].
     fold kv'. pose proof (known_members ms ms (incl_refl ms)) as Hkm. fold kv' in Hkm. rewrite Hkm. cbn [guard bind].
     unfold enc_go in He. unfold s0 in He. rewrite <- Hps in He. rewrite He. cbn [bind].
@@ -221,7 +222,10 @@ Proof.
     cbn [map concat flat_map]. rewrite concat_app. f_equal.
     - apply (bytes_are_leaves d). apply Hts. now left.
     - apply IH. intros y Hy. apply Hts. now right. }
-  unfold encode_msg. rewrite EF. cbn [enc_composite]. cbn [estate0 e_bit Z.eqb guard bind].
+  unfold encode_msg. rewrite EF. cbn [enc_composite].
+  no_own_keys ltac:(intros p Hp; unfold ps, ws in Hp; rewrite map_map in Hp; apply in_map_iff in Hp as (t & <- & Ht);
+                    apply w_no_lenkey).
+  cbn [estate0 e_bit Z.eqb guard bind].
   pose proof (known_members ms ms (incl_refl ms)) as Hkm. rewrite Hps in Hkm. fold kv in Hkm. rewrite Hkm.
   cbn [guard bind].
   unfold enc_go in He. fold ps in He. unfold s0 in He. rewrite He. cbn [bind].
